@@ -183,7 +183,9 @@ func VerifC10Adversary() {
 		req.NodeId = "n1"
 	}
 	snap := inner.Snapshot()
-	resp, err := RotateNodeCredentials(ctx, st, req)
+	// whatever state option the caller passes, the old record's state is what carries over (the call without any
+	// option is the honest-history harness)
+	resp, err := RotateNodeCredentials(ctx, st, req, nodeenrollment.WithState(vfs.State("callers-own-state")))
 	vf.Assume(vf.TimeLE(vf.Now(), t0.Add(time.Second)))
 
 	// the stored record (if any) that the payload authenticates against, within the identified node's records
